@@ -134,6 +134,10 @@ func (f *StarvingMutex) Unlock() {
 		panic("Unlock called while readers active")
 	}
 
+	if !f.writerActive {
+		panic("Unlock called without Lock")
+	}
+
 	f.writerActive = false
 	if f.pendingWriters == 0 {
 		f.mutex.Unlock()
